@@ -527,7 +527,9 @@ BlockStep(S, cfg, D, fr, b) ==
                   IF expected > cfg.maxm THEN <<D, Fail(fr)>>
                   ELSE IF fr.limsize # Unl /\ expected > fr.limsize THEN <<D, Finish(fr, "false")>>
                   ELSE LET r  == SourceKids(S, D, n, srcs, 0, {})
-                           D1 == [MarkExpanded(r[1], n, "other") EXCEPT !.nodes[n].seeds = Known(<<>>), !.nodes[n].sets = Known(<<>>)]
+                           \* (behaviour after the second C14 fix: the candidates computed for the stub are replaced as well)
+                           D1 == [MarkExpanded(r[1], n, "other") EXCEPT !.nodes[n].seeds = Known(<<>>), !.nodes[n].sets = Known(<<>>),
+                                                                         !.nodes[n].cand = Known(<<>>)]
                        IN <<D1, [fr EXCEPT !.nxt = @ \cup r[2], !.i = @ + 1]>>
               ELSE LET x == DoExpand(S, cfg, D, fr, n) IN
                    IF x.err THEN <<x.d, Fail(x.fr)>>
@@ -577,6 +579,8 @@ SourceSCCs(S, sp) ==
 ExtSpace(sub, at, Cv) == [i \in DOMAIN at |-> IF at[i] # 2 THEN at[i] ELSE IF i \in Cv THEN sub[i] ELSE 2]
 OnlyVars(m, Cv) == [i \in DOMAIN m |-> IF i \in Cv THEN m[i] ELSE 2]
 EmptySeeds(D, n) == [D EXCEPT !.nodes[n].seeds = Known(<<>>), !.nodes[n].sets = Known(<<>>)]
+\* the source shortcut of the root (behaviour after the second C14 fix: candidates of the stub are replaced too)
+EmptyAll(D, n) == [D EXCEPT !.nodes[n].seeds = Known(<<>>), !.nodes[n].sets = Known(<<>>), !.nodes[n].cand = Known(<<>>)]
 \* oracle: a logged answer sequence (trace validation), or "exact" (model checking: claims emptiness exactly when it is true)
 OrcSeq(q) == [mode |-> "seq", q |-> q]
 OrcExact  == [mode |-> "exact", q |-> <<>>]
@@ -661,7 +665,7 @@ SccRun(S, maxm, D, maa, orc) ==
         fin  == IF srcs # <<>> THEN
                     IF P2[Len(srcs) + 1] > maxm THEN [st0 EXCEPT !.ok = FALSE]
                     ELSE LET r == SourceKids(S, D, 1, srcs, 0, {})
-                             D1 == EmptySeeds(MarkExpanded(r[1], 1, IF D.nodes[1].expanded THEN D.nodes[1].how ELSE "other"), 1)
+                             D1 == EmptyAll(MarkExpanded(r[1], 1, IF D.nodes[1].expanded THEN D.nodes[1].how ELSE "other"), 1)
                          IN SccLevels(S, maxm, maa, r[2], [st0 EXCEPT !.d = D1])
                 ELSE SccLevels(S, maxm, maa, {1}, st0)
     IN [d |-> fin.d, ret |-> IF fin.ok THEN "true" ELSE "error", orc |-> fin.orc, unsound |-> fin.unsound, xl |-> fin.xl]
@@ -772,6 +776,15 @@ CacheFresh(S, D) ==
                             ELSE SeedsExactFor(S, D, n, nd.seeds.v)
        /\ nd.sets.k = 1 /\ nd.seeds.k = 1 => SetsExactFor(S, nd.seeds.v, nd.sets.v)
        /\ nd.sets.k = 1 /\ nd.seeds.k = 0 => \A i \in DOMAIN nd.sets.v : SeqToSet(nd.sets.v[i]) \in S.attr
+
+\* C14, second sentence, as a property of one step P -> D: an operation that gives a previously unexpanded node
+\* successors discards or replaces what was computed while it had none.  Observable form: a candidate the node still
+\* reports does not lie inside one of its new successors (a list computed for the node WITH these successors avoids
+\* their motifs, so it never does; a list left over from the stub covers the whole node).
+CacheDiscarded(P, D) ==
+    \A n \in Ids(P) \cap Ids(D) :
+        (~P.nodes[n].expanded /\ D.nodes[n].expanded /\ D.nodes[n].cand.k = 1) =>
+            \A i \in DOMAIN D.nodes[n].cand.v : \A c \in Succs(D, n) : ~Sub(D.nodes[n].cand.v[i], D.nodes[c].space)
 
 \* every attractor is represented by exactly one seed in the whole diagram (C01 at completion)
 AllSeedsKnown(D, X) == \A n \in X : D.nodes[n].seeds.k = 1
